@@ -350,3 +350,17 @@ def std_replay(ctx, path, module, const=None):
         return 1
     print("replay: event accepted by the specification (res=%s)" % json.dumps(ev.get("res"))[:300])
     return 0
+
+
+def suite_events(ctx, files, kinds, start_id, limit=None):
+    """events recorded while (part of) the repository's own pinned test suite runs (harness/suitetrace.py)"""
+    from . import suitetrace
+    path = os.path.join(tlc.scratch_dir("suite"), "suite.jsonl")
+    open(path, "w").close()
+    rc, out = suitetrace.run_suite(files, path, REPO)
+    evs = suitetrace.events_from(path, kinds, start_id, limit, ctx.rng)
+    ctx.notes["suite_trace"] = {"test_files": list(files), "pytest_exit": rc, "events": len(evs)}
+    for e in evs:
+        ctx.keys[e["id"]] = ("suite", e["act"])
+        ctx.nontriv(("suite", e["act"], e["res"]["ok"]))
+    return evs
